@@ -435,6 +435,8 @@ def s7(rep):
         key = "siblings:%s:%s~%s" % (unit, a, b)
         if r is None:
             rep.ok("S7", key)
+        elif siblings.kind_of_difference(r) == "shape":
+            raise AnalysisBroken("the siblings %s and %s no longer have the same shape; re-confirm by hand" % (a, b))
         else:
             i, ta, la, tb, lb, na, nb = r
             rep.violation("S7", key, "%s:%d (%s) / %s:%d (%s)" % (unit, la, a, unit, lb, b),
